@@ -308,6 +308,38 @@ const SPECIAL_U64: &[u64] = &[0, 1, 2, 7, 8, 9, 255, 256, 65535, 65536, 1 << 20,
 pub fn gen_input(seed: u64, idx: u64) -> (usize, Vec<u8>, &'static str) {
     let mut rng = Rng::new(crate::common::mix(seed, idx));
     let subject = (idx % SUBJECTS.len() as u64) as usize;
+    // state carried from one message to the next: every 480th input of a decompressor is a well-formed payload that
+    // expands enormously (megabytes of zeros), and the one right after it (same subject, same process) is bulky
+    // garbage — what the decoder asks for on the second must not depend on the first
+    if is_decompressor(subject) {
+        let g = idx / SUBJECTS.len() as u64;
+        if g % 480 == 0 {
+            let zeros = vec![0u8; (2 + rng.below(6) as usize) << 20];
+            let name = match subject {
+                9 => "gzip/6",
+                10 => "zlib/6",
+                11 | 14 => "zstd/3",
+                12 => "lz4",
+                _ => "brotli-generic/5",
+            };
+            let data = if subject == 14 { encode_message_batch(vec![Bytes::from(zeros)]).to_vec() } else { zeros };
+            let v = PAIRS.with(|p| {
+                if p.borrow().is_none() {
+                    *p.borrow_mut() = Some(all_pairs(true));
+                }
+                let g = p.borrow();
+                let pr = g.as_ref().unwrap().iter().find(|x| x.2 == name).unwrap();
+                pr.0.compress(Bytes::from(data)).map(|b| b.to_vec()).unwrap_or_default()
+            });
+            return (subject, v, "highly-expanding-valid-payload");
+        }
+        if g % 480 == 1 {
+            let n = 200_000 + rng.below(800_000) as usize;
+            let mut v = rng.bytes(4096);
+            v.resize(n, 0x3c);
+            return (subject, v, "bulky-garbage-after-an-expanding-payload");
+        }
+    }
     let strategy = rng.below(14);
     match strategy {
         0 => {
